@@ -71,6 +71,8 @@ def chain(draw, cid="A", nmin=1, nmax=6, wild=False, hyd=None, variants=0.2, sta
         q=draw(quat()),
         ter=draw(st.sampled_from([True] * 5 + [False])),
     )
+    if d["start"] + n > 9999:  # the PDB residue-number column has 4 characters
+        d["start"] = 9999 - n
     return d
 
 
